@@ -27,7 +27,7 @@ ASSUMPTIONS = [
     "theorems are over Rat (exact arithmetic on the rational values of the float inputs); the set of reported levels "
     "is compared bit-exactly with the model at Float, and with the model at Rat whenever no sample's y/step lies within "
     "1e-12 of an integer without being one (guard band: there float division legitimately rounds)",
-    "abscissae strictly increasing, ordinates finite, step positive",
+    "abscissae strictly monotone (increasing, or decreasing for a series listed newest first), ordinates finite, step positive",
 ]
 RULE = ("series of 1-12 samples: rising, falling, non-monotone, flat segments, samples exactly on a grid level and one "
         "ulp beside it, abscissae re-based or at UNIX-epoch magnitude; steps 1, .5, .25, 2, 2.5, 5 (exact) and .1, .2, .3, "
@@ -69,6 +69,9 @@ def gen_series(rng):
             elif shape == "mixed":
                 y += rng.choice([-1, 1]) * d
         ys.append(float(y))
+    if rng.random() < 0.12 and n > 1:
+        # the series listed newest first (abscissae strictly decreasing): the crossings are those of the same polyline
+        xs, ys = xs[::-1], ys
     return step, xs, ys
 
 
@@ -103,9 +106,12 @@ def run_regrid(ctx, n):
         step, xs, ys = gen_series(ctx.rng)
         inp = {"function": "regrid.regrid", "x": xs, "y": ys, "step": step}
         try:
+            ax, ay = np.array(xs), np.array(ys)
             with common.session_logging(ctx.rng, 0.15):
-                got = [(int(k), float(x)) for k, x in rg.regrid(np.array(xs), np.array(ys), step)]
+                got = [(int(k), float(x)) for k, x in rg.regrid(ax, ay, step)]
             err = None
+            if not (common.same_as_snapshot(ax, np.array(xs)) and common.same_as_snapshot(ay, np.array(ys))):
+                err = "the caller's arrays were modified by regrid"
         except Exception as e:  # noqa
             got, err = None, "%s: %s" % (type(e).__name__, e)
         guard = in_guard_band(step, ys)
@@ -135,12 +141,12 @@ def run_regrid(ctx, n):
                         x = got[i][1]
                         i += 1
                         x0, x1, y0, y1 = xs[p], xs[p + 1], ys[p], ys[p + 1]
-                        tol = 1e-9 * (x1 - x0) + 4 * 2.3e-16 * abs(x) + 4e-12
-                        if not (x0 - tol <= x <= x1 + tol):
+                        tol = 1e-9 * abs(x1 - x0) + 4 * 2.3e-16 * abs(x) + 4e-12
+                        if not (min(x0, x1) - tol <= x <= max(x0, x1) + tol):
                             ok, why = False, {"why": "position outside its bracketing samples", "pair": p, "level": k, "x": x}
                             break
                         val = Fraction(y0) + (Fraction(y1) - Fraction(y0)) * (Fraction(x) - Fraction(x0)) / (Fraction(x1) - Fraction(x0))
-                        slope = abs(Fraction(y1) - Fraction(y0)) / (Fraction(x1) - Fraction(x0))
+                        slope = abs(Fraction(y1) - Fraction(y0)) / abs(Fraction(x1) - Fraction(x0))
                         if abs(val - k * Fraction(step)) > slope * Fraction(tol) + Fraction(1, 10**9) * Fraction(step):
                             ok, why = False, {"why": "interpolant at the reported position is not the level", "pair": p,
                                               "level": k, "x": x, "interpolant": float(val)}
@@ -155,8 +161,17 @@ def run_regrid(ctx, n):
         if not guard:
             mq = ctx.driver.call("regrid.q", {"step": q2s(Fraction(step)),
                                               "pts": [[q2s(Fraction(x)), q2s(Fraction(y))] for x, y in zip(xs, ys)]})
+            # position tolerance: 1e-9 of the span, the root finder's resolution at the magnitude of x, and the
+            # conditioning of the interpolation itself -- between two readings that differ by dy the computed
+            # position moves by about eps * |y| / |dy| of the sampling interval (readings 1e-10 apart: 1e-5 of it)
+            cond = {}
+            for (xa, ya), (xb, yb) in zip(zip(xs, ys), zip(xs[1:], ys[1:])):
+                if ya != yb:
+                    lo_k, hi_k = sorted((ya / step, yb / step))
+                    for k in range(math.ceil(lo_k), math.ceil(hi_k) + 1):
+                        cond[k] = max(cond.get(k, 0.0), 16 * 2.3e-16 * max(abs(ya), abs(yb), step) / abs(yb - ya) * abs(xb - xa))
             same_q = [k for k, _ in got] == [c[0] for c in mq["crossings"]] and all(
-                abs(Fraction(x) - Fraction(c[1])) <= Fraction(1e-9 * max(1.0, xs[-1] - xs[0]) + 1e-15 * abs(x) + 4e-12)
+                abs(Fraction(x) - Fraction(c[1])) <= Fraction(1e-9 * max(1.0, abs(xs[-1] - xs[0])) + 1e-15 * abs(x) + 4e-12 + cond.get(k, 0.0))
                 for (k, x), c in zip(got, mq["crossings"]))
             ctx.obligation(ob_q, same_q)
             if not same_q:
@@ -192,7 +207,7 @@ def run_headmap(ctx, n):
         ctx.case(("headmap", step, str(series)), bool(got))
         # positions: relative to the span of the series (not to the magnitude of the epoch), plus the root finder's
         # own resolution at that magnitude (brentq: 2e-12 + 4 eps |x|) and the rounding of a mean
-        span = {i_: max(1.0, xs_[-1] - xs_[0]) for i_, (xs_, _ys) in enumerate(series)}
+        span = {i_: max(1.0, abs(xs_[-1] - xs_[0])) for i_, (xs_, _ys) in enumerate(series)}
         ok = [(k, [s for s, _ in v]) for k, v in got] == [(k, [s for s, _ in v]) for k, v in want] and all(
             abs(Fraction(t) - tq) <= Fraction(1e-9 * span[s] + 16 * 2.3e-16 * abs(t) + 4e-12)
             for (k, v), (_k, vq) in zip(got, want) for (s, t), (_s, tq) in zip(v, vq))
